@@ -350,6 +350,88 @@ fn search(c: &Cur, m: &Model, depth: usize, alphabet: &[String], keys: &[Vec<u8>
     Ok(())
 }
 
+/// Source whose k-th read/seek call fails (shared state so that the scan can see whether the fault fired).
+struct FaultySrc {
+    inner: Cursor<Vec<u8>>,
+    st: std::rc::Rc<std::cell::Cell<(u32, u32, bool)>>, // (calls so far, fail_at, fired)
+}
+impl FaultySrc {
+    fn tick(&self) -> std::io::Result<()> {
+        let (c, f, fired) = self.st.get();
+        let c = c + 1;
+        if c == f {
+            self.st.set((c, f, true));
+            return Err(std::io::Error::new(std::io::ErrorKind::Other, "injected"));
+        }
+        self.st.set((c, f, fired));
+        Ok(())
+    }
+}
+impl std::io::Read for FaultySrc {
+    fn read(&mut self, buf: &mut [u8]) -> std::io::Result<usize> {
+        self.tick()?;
+        self.inner.read(buf)
+    }
+}
+impl std::io::Seek for FaultySrc {
+    fn seek(&mut self, to: std::io::SeekFrom) -> std::io::Result<u64> {
+        self.tick()?;
+        self.inner.seek(to)
+    }
+}
+
+/// Confirms a read-fault counterexample through the public API: full forward and backward scans with the k-th I/O call
+/// failing, for every k: the call during which the fault fires must return Err; it must never be reported as Ok.
+fn fault_scan(file: &[u8], n: usize) -> Result<(), String> {
+    for forward in [true, false] {
+        for k in 1..400u32 {
+            let st = std::rc::Rc::new(std::cell::Cell::new((0u32, k, false)));
+            let src = FaultySrc { inner: Cursor::new(file.to_vec()), st: st.clone() };
+            let reader = match Reader::new(src) {
+                Ok(r) => r,
+                Err(_) => {
+                    if st.get().2 { continue } else { return Err(format!("open failed without a fault (k={})", k)) }
+                }
+            };
+            let mut c = reader.into_cursor().map_err(|e| e.to_string())?;
+            let mut seen = 0usize;
+            loop {
+                let before = st.get().2;
+                let r = if forward { c.move_on_next() } else { c.move_on_prev() };
+                let fired_now = st.get().2 && !before;
+                match r {
+                    Ok(Some(_)) => {
+                        if fired_now {
+                            return Err(format!("k={} {}: the source failed during the call but the call returned an entry", k, if forward { "next" } else { "prev" }));
+                        }
+                        seen += 1;
+                    }
+                    Ok(None) => {
+                        if fired_now {
+                            return Err(format!("k={} {} scan: the source failed during the call but the call returned Ok(None) after {} of {} entries (error swallowed)",
+                                               k, if forward { "forward" } else { "backward" }, seen, n));
+                        }
+                        if seen != n {
+                            return Err(format!("k={}: scan ended after {} of {} entries without an error", k, seen, n));
+                        }
+                        break;
+                    }
+                    Err(_) => {
+                        if !fired_now {
+                            return Err(format!("k={}: an error was reported although no fault fired during the call", k));
+                        }
+                        break;
+                    }
+                }
+            }
+            if !st.get().2 && k > 1 {
+                break; // k beyond the number of I/O calls of a full scan
+            }
+        }
+    }
+    Ok(())
+}
+
 fn bound_of(kind: &str, bytes: &[u8]) -> Bound<Vec<u8>> {
     match kind {
         "U" => Bound::Unbounded,
@@ -425,6 +507,7 @@ fn main() {
     let res = catch_unwind(AssertUnwindSafe(|| -> Result<(), String> {
         match mode.as_str() {
             "mergesearch" => merge_search(&keys),
+            "faultscan" => fault_scan(&file, keys.len()),
             "cursor" => run_cursor(file, &ops, &keys, &vals, &sym),
             "search" => {
                 let depth: usize = args.get(0).and_then(|a| a.parse().ok()).unwrap_or(6);
